@@ -5,15 +5,18 @@
    declared size n (selection of 1-based elements | ErrV = the generator's own ValueError | ErrB = any
    other exception); `modelica n u` is the specification (Modelica's 1-based inclusive ranges
    start:step:stop, ErrV as soon as one selected element is outside 1..n).  `c : cfg` says which
-   repairs the tree contains: `as_coded` = Cfg false false false false is /repo as of round 1;
-   /repo after the fix commits 05b675f, f098077, f8eb4b4 is Cfg true true false true. *)
+   repairs the tree contains: `as_coded` = Cfg false false false false false is /repo as of round 1;
+   /repo after the fix commits 05b675f, f098077, f8eb4b4 is `repo_now` = Cfg true true false true false
+   (flags: slice check, loop-index check, Modelica three-part ranges, empty-loop repair, loop variable on
+   a scalar rejected).  A loop subscript is either i+off (LoopV) or any integer expression of i built
+   from constants, +, -, * (LoopX), evaluated pointwise on the loop values. *)
 From Coq Require Import ZArith List Bool.
 From PV Require Import Model.C23_index Proofs.C23_index.
 Import ListNotations.
 Open Scope Z_scope.
 
-Definition as_coded : cfg := Cfg false false false false.
-Definition repo_now : cfg := Cfg true true false true.
+Definition as_coded : cfg := Cfg false false false false false.
+Definition repo_now : cfg := Cfg true true false true false.
 
 (* scalar subscripts, whatever the configuration and for every n: exactly the elements 1..n are
    accepted (and map to themselves), everything else -- 0, negatives, n+1.. -- raises ValueError *)
@@ -60,6 +63,23 @@ Proof.
 Qed.
 Print Assumptions C23_repo_now_two_part.
 
+(* SCALAR SYMBOLS (also a scalar member of a component array, a scalar component): every subscript --
+   integer, ':', slice, loop expression -- is rejected with ValueError; for the bare loop variable this
+   needs the fifth repair.  Holds of /repo now for every subscript except the bare loop variable. *)
+Theorem C23_scalar_symbol (c : cfg) (k : Z) (u : sub) :
+  (is_loop u = true -> loop_step c u <> 0) ->
+  (bare_loop u = false \/ chk_scalar_loop c = true) ->
+  index_scalar c k u = modelica_scalar u.
+Proof. exact (scalar_rejected c k u). Qed.
+Print Assumptions C23_scalar_symbol.
+
+(* REFUTED for /repo now (known finding loop-subscript-on-scalar): `Real x; for i in 1:1 loop x[i]`
+   is accepted and selects the scalar itself *)
+Theorem C23_scalar_symbol_refuted :
+  exists u, modelica_scalar u = ErrV /\ index_scalar repo_now 1 u = Ok [1].
+Proof. exists (LoopV 1 1 0). split; vm_compute; reflexivity. Qed.
+Print Assumptions C23_scalar_symbol_refuted.
+
 (* PARTIAL (what holds of /repo as it was, and of every configuration): two-part subscripts that stay
    inside the array -- scalar i, ':', a:b with 1 <= a and 0 <= b <= n, loop indices i+off all inside
    1..n -- select exactly the Modelica elements.  Missing for the full property: the out-of-range
@@ -100,16 +120,19 @@ Print Assumptions C23_loop_refuted.
 
 (* x[1:3:2] on Real x[3]: Modelica start 1, step 3, stop 2 = {1}; read as start:stop:step = {1,3},
    with or without the range checks *)
-Theorem C23_three_part_refuted (cs cl ce : bool) :
-  modelica 3 (Sl3 1 3 2) = Ok [1] /\ index (Cfg cs cl false ce) 3 (Sl3 1 3 2) = Ok [1; 3].
-Proof. destruct cs, cl, ce; split; vm_compute; reflexivity. Qed.
+Theorem C23_three_part_refuted (cs cl ce cx : bool) :
+  modelica 3 (Sl3 1 3 2) = Ok [1] /\ index (Cfg cs cl false ce cx) 3 (Sl3 1 3 2) = Ok [1; 3].
+Proof. destruct cs, cl, ce, cx; split; vm_compute; reflexivity. Qed.
 Print Assumptions C23_three_part_refuted.
 
 (* non-vacuity: the hypotheses of C23_checked are satisfiable and the conclusion is not trivial --
    a repaired configuration rejects x[0:2] and the wrapped loop, and accepts x[2:3] as {2,3} *)
 Example C23_example :
-  let c := Cfg true true true true in
+  let c := Cfg true true true true true in
+  let sq := LMul (LSub LVar (LConst 2)) (LSub LVar (LConst 2)) in     (* (i-2)*(i-2): 1,0,1 on 1:3 *)
   wf c (Sl3 3 (-1) 1) /\ index c 3 (LoopV 3 1 1) = Ok [] /\
+  index c 3 (LoopX 1 3 sq) = ErrV /\ index c 3 (LoopX 1 3 (LAdd sq (LConst 1))) = Ok [2; 1; 2] /\
+  index_scalar c 1 (LoopV 1 1 0) = ErrV /\
   index c 3 (Sl 0 2) = ErrV /\ index c 3 (LoopV 0 3 0) = ErrV /\
   index c 3 (Sl 2 3) = Ok [2; 3] /\ index c 3 (Sl3 3 (-1) 1) = Ok [3; 2; 1] /\
   index c 3 (LoopV 1 2 1) = Ok [2; 3].
